@@ -20,29 +20,30 @@ type TV struct {
 
 // Exec verifies one function against its contract.
 type Exec struct {
-	ctx     *Ctx
-	ld      *Loaded
-	db      *SpecDB
-	fn      *ssa.Function
-	spec    *FnSpec
-	cf      *ContractFile
-	pkgPath string
-	obligs  []Oblig
-	entry   *State
-	params  map[string]TV
-	loops   map[*ssa.BasicBlock]*loopInfo
-	paths   int
-	epochs  int
-	callOrd map[ssa.Instruction]int
-	siteOrd map[ssa.Instruction]int
-	notes   map[string]bool // assumptions / abstractions used (for evidence)
-	strIDs  map[string]int
-	discover *writeSet
-	maxPaths int
-	assignsLocs []assignLoc
-	resultNames []string
+	ctx           *Ctx
+	ld            *Loaded
+	db            *SpecDB
+	fn            *ssa.Function
+	spec          *FnSpec
+	cf            *ContractFile
+	pkgPath       string
+	obligs        []Oblig
+	entry         *State
+	params        map[string]TV
+	loops         map[*ssa.BasicBlock]*loopInfo
+	paths         int
+	epochs        int
+	callOrd       map[ssa.Instruction]int
+	siteOrd       map[ssa.Instruction]int
+	notes         map[string]bool // assumptions / abstractions used (for evidence)
+	strIDs        map[string]int
+	discover      *writeSet
+	maxPaths      int
+	assignsLocs   []assignLoc
+	resultNames   []string
 	euclid        map[string]*euclidEntry
 	euclidOrder   []*euclidEntry
+	footprint     []fpItem
 	usedContracts map[string]*FnSpec
 	pending       []pendingPath
 	kf            []knownFinding
@@ -68,7 +69,6 @@ type assignLoc struct {
 	whole bool // slice contents "[*]": all indices of backing array
 	src   string
 }
-
 
 func (ex *Exec) nextEpoch() int { ex.epochs++; return ex.epochs }
 
@@ -147,6 +147,7 @@ func (ex *Exec) verify() (obligs []Oblig, err error) {
 	ex.obligs = append(ex.obligs, Oblig{Name: ex.obName("cover.requires"), Kind: "cover", Asm: st.asm[:len(st.asm):len(st.asm)], Goal: tFalse, Cover: true, Desc: "precondition satisfiable"})
 	ex.evalAssigns(st)
 	ex.prepareKnownFindings()
+	ex.footprint = ex.buildFootprint()
 	ex.run(st, fn.Blocks[0], nil)
 	return ex.obligs, nil
 }
@@ -509,7 +510,13 @@ func (ex *Exec) step(st *State, in ssa.Instruction) bool {
 	case *ssa.Convert:
 		st.regs[x] = ex.convert(st, x)
 	case *ssa.ChangeType:
-		st.regs[x] = st.val(x.X)
+		v := st.val(x.X)
+		if _, toIface := under(x.Type()).(*types.Interface); toIface {
+			if sc, ok := v.(Sc); ok { // a type-parameter value converted to an interface
+				v = If{ex.typeID(x.X.Type()), sc.T}
+			}
+		}
+		st.regs[x] = v
 	case *ssa.ChangeInterface:
 		st.regs[x] = st.val(x.X)
 	case *ssa.MakeInterface:
@@ -1013,7 +1020,7 @@ func (ex *Exec) sliceOp(st *State, x *ssa.Slice) Value {
 func (ex *Exec) makeSlice(st *State, x *ssa.MakeSlice) Value {
 	n := st.scalar(x.Len)
 	c := st.scalar(x.Cap)
-	ex.safety(st, x, "makeslice", tAnd(tLe(intLit(0), n), tLe(n, c), tLe(c, bigLit(pow2(47)))))
+	ex.safety(st, x, "makeslice", tAnd(tLe(intLit(0), n), tLe(n, c), tLe(c, bigLit(pow2(62)))))
 	elem := under(x.Type()).(*types.Slice).Elem()
 	r := st.newRef("mk")
 	s := Sl{r, intLit(0), n, c}
@@ -1040,7 +1047,17 @@ func (ex *Exec) zeroFill(st *State, s Sl, elem types.Type) {
 		}
 		inner := elemSort(hs)
 		z := Term{zero, l.Sort}
-		zt := constArray(inner, z)
+		var zt Term
+		if zero == "0" || zero == "false" {
+			zt = constArray(inner, z)
+		} else {
+			// symbolic zero (type parameter): constant arrays need a value literal, so define by a quantified axiom
+			if l.NArr > 0 {
+				unsup("array-typed element with a type-parameter leaf")
+			}
+			zt = ex.ctx.Fresh("zeroarr", inner)
+			st.assume(Term{fmt.Sprintf("(forall ((j!z Int)) (= (select %s j!z) %s))", zt.S, z.S), SBool})
+		}
 		st.setHeap(key, tStore(h, s.Ref, zt))
 		if ex.discover != nil {
 			// writes to a freshly allocated backing array never need havoc
